@@ -10,7 +10,8 @@ PID = "C16"
 BOUNDS = ("file_util.main on the in-memory host FS; source images written by the tool (cassette or disk, 1-3 files, "
           "symbolic contents and addresses, names incl. mixed case and 8+ characters) converted with --to_cas / --to_dsk / "
           "--to_bin, with and without --files (enumerated subsets, upper/lower/mixed case), and chains cas->dsk->cas and "
-          "dsk->cas->dsk; the results are read by the independent oracles (O-CAS parse, O-DECB fsck)")
+          "dsk->cas->dsk; the results are read by the independent oracles (O-CAS parse, O-DECB fsck); BASIC and ML "
+          "files longer than one granule / one tape block through both chains")
 OUTSIDE = "more than 3 files; BASIC/ASCII files compare type and data only on disk (Disk BASIC stores no addresses for them)"
 ASSUMPTIONS = c06.ASSUMPTIONS
 
